@@ -19,7 +19,7 @@
 From Coq Require Import List NArith.
 From SWH.lib Require Import Bytes.
 From SWH.model Require Import Merkle.
-From SWH.proofs Require Import MerkleBase MerkleAcyclic MerkleInv MerkleStep MerkleTotal MerkleForce MerkleWitness.
+From SWH.proofs Require Import MerkleBase MerkleAcyclic MerkleInv MerkleStep MerkleTotal MerkleForce MerkleChain MerkleWitness.
 Import ListNotations.
 Local Open Scope nat_scope.
 
@@ -88,6 +88,41 @@ Theorem C10_path_ops_total : forall NH : bytes -> list entry -> bytes,
      snd (step NH true false (final NH true false [] h) o) = OutErr e -> e <> EFuel).
 Proof. exact path_ops_total. Qed.
 Print Assumptions C10_path_ops_total.
+
+(* "At any depth": the model has no depth limit.  [chain_heap d key n] is the
+   chain of n nested nodes (node i holds node i+1 under [key]; it is what
+   "create n nodes, link each under the previous one" builds).  For EVERY n it
+   satisfies the invariant, node n-1 is n-1 levels below node 0, and after any
+   guarded history run on it (a mutation at the bottom, ...) reading or forcing
+   the hash of any node - the top in particular - succeeds with the from-scratch
+   hash, and no operation answers "out of fuel" (the recursive procedures take
+   their fuel from the heap size, not from a stack).  The implementation
+   recurses one Python frame per level instead: known finding
+   chain-deeper-than-recursion-limit. *)
+Theorem C10_chain_any_depth : forall (NH : bytes -> list entry -> bytes) (d key : bytes) (n : nat),
+  InvA NH (chain_heap d key n) /\
+  (forall i j, i <= j -> j < n -> Reach (chain_heap d key n) i j) /\
+  forall (h : list op) (o : op),
+  guarded NH true false (chain_heap d key n) h ->
+  guard NH true false (final NH true false (chain_heap d key n) h) o ->
+  let s := final NH true false (chain_heap d key n) h in
+  let s' := fst (step NH true false s o) in
+  (forall m, m < length s -> o = OHash m \/ o = OForce m ->
+     exists hv, snd (step NH true false s o) = OutHash hv /\ Fresh NH s' m hv /\ Fresh NH s m hv) /\
+  (forall e, snd (step NH true false s o) = OutErr e -> e <> EFuel).
+Proof.
+  intros NH d key n. split; [apply chain_inv|]. split; [apply chain_reach|]. apply chain_any_depth.
+Qed.
+Print Assumptions C10_chain_any_depth.
+
+(* On the untouched chain of any depth n > 0: the hash of the top is computed
+   (from scratch), and a collect at the top returns all the n nodes. *)
+Theorem C10_chain_top_ops : forall (NH : bytes -> list entry -> bytes) (d key : bytes) (n : nat), 0 < n ->
+  let s := chain_heap d key n in
+  (exists s' hv, step NH true false s (OHash 0) = (s', OutHash hv) /\ Fresh NH s 0 hv) /\
+  (exists s' L, step NH true false s (OCollect 0) = (s', OutNodes L) /\ forall i, i < n -> In i L).
+Proof. exact chain_top_ops. Qed.
+Print Assumptions C10_chain_top_ops.
 
 (* The acyclicity guard is the plain one: "some rank decreases along child
    edges" is equivalent to the same with the rank bounded by the number of
